@@ -1,7 +1,15 @@
 import Oracle.Proto
-/-! Oracle suites of property C12 (registered in Oracle/Main.lean through `suites`). -/
+import Oracle.Registry
+import Oracle.Address
+/-! Oracle suites of property C12. -/
 namespace Oracle.C12
 
-def suites : List (String × Suite) := []
+def suites : List (String × Suite) := [
+  ("registry", Oracle.Registry.model),
+  ("registry-judge", Oracle.Registry.judge),
+  ("registry-facts", Oracle.Registry.factsSuite),
+  ("address", Oracle.Address.model),
+  ("address-spec", Oracle.Address.spec)
+]
 
 end Oracle.C12
